@@ -50,6 +50,10 @@ class NPC(NPProxy):
         return np.array(a, dtype=dtype, **kw)
 
 
+def _nz(x):
+    return not (isinstance(x, int) and x == 0)
+
+
 def cgmass_fn():
     def fn(eng):
         S.set_engine(eng)
@@ -73,11 +77,11 @@ def cgmass_fn():
         for i in range(3):
             for j in range(3):
                 M[i, j] = S.SymR(mu if i == j else z3.RealVal(0))
-                M[i, 3 + j] = S.SymR(-mu * rx[i][j] if rx[i][j] != 0 else z3.RealVal(0))
-                M[3 + i, j] = S.SymR(mu * rx[i][j] if rx[i][j] != 0 else z3.RealVal(0))
+                M[i, 3 + j] = S.SymR(-mu * rx[i][j] if _nz(rx[i][j]) else z3.RealVal(0))
+                M[3 + i, j] = S.SymR(mu * rx[i][j] if _nz(rx[i][j]) else z3.RealVal(0))
         for i in range(3):
             for j in range(3):
-                rr = z3.Sum([rx[i][k] * rx[k][j] for k in range(3) if rx[i][k] != 0 and rx[k][j] != 0] + [z3.RealVal(0)])
+                rr = z3.Sum([rx[i][k] * rx[k][j] for k in range(3) if _nz(rx[i][k]) and _nz(rx[k][j])] + [z3.RealVal(0)])
                 M[3 + i, 3 + j] = S.SymR(Ic[i][j] - mu * rr)
         info = {}
         try:
